@@ -211,11 +211,47 @@ def reuse_sequence(case, acc, seed_for_forms):
     os.unlink(path)
 
 
+def two_rules_interleaved(cases, acc, seed_for_forms):
+    """Two DiagramRule objects configured with their calls interleaved (different diagrams, base modules and modes) and
+    applied alternately: each is judged on its own diagram, base module and graph."""
+    from pytestarch import DiagramRule
+
+    rnd = random.Random(seed_for_forms)
+    evs = [build(c["mods"], [tuple(i) for i in c["imps"]]) for c in cases]
+    paths = [write_diagram(diagram_spec(rnd, c["comps"], [tuple(r) for r in c["rel"]]), f"i{acc.evaluations}_{k}.puml") for k, c in enumerate(cases)]
+    modes = [rnd.random() < 0.5 for _ in cases]
+    rules = [None] * len(cases)
+    steps = [k for k in range(len(cases)) for _ in range(3)]
+    rnd.shuffle(steps)
+    pos = [0] * len(cases)
+    for k in steps:
+        if pos[k] == 0:
+            rules[k] = DiagramRule(should_only_rule=modes[k])
+        elif pos[k] == 1:
+            rules[k].from_file(Path(paths[k]))
+        else:
+            rules[k].with_base_module(cases[k].get("base", "r.app"))
+        pos[k] += 1
+    order = list(range(len(cases))) * 2
+    rnd.shuffle(order)
+    for k in order:
+        HUB.case = {"kind": "diagram-interleaved", "cases": cases, "forms_seed": seed_for_forms, "applied": k}
+        run(rules[k], evs[k])
+        acc.evaluated()
+    acc.count("diagram_rules_configured_interleaved", len(cases))
+    for p_ in paths:
+        os.unlink(p_)
+
+
 def run_shard(spec, acc):
     rnd = random.Random(spec["seed"])
+    prev = None
     for i in range(spec["n"]):
         case = gen_case(rnd)
         evaluate(case, acc, rnd.randint(0, 10**6))
+        if i % 4 == 1 and prev is not None:
+            two_rules_interleaved([prev, case], acc, rnd.randint(0, 10**6))
+        prev = case
         if i % 3 == 0:
             reuse_sequence(case, acc, rnd.randint(0, 10**6))
         acc.hist("perturbations", len(case["pert"]))
@@ -224,6 +260,8 @@ def run_shard(spec, acc):
 
 
 def replay(case, acc):
+    if case.get("kind") == "diagram-interleaved":
+        return two_rules_interleaved(case["cases"], acc, case.get("forms_seed", 0))
     if case.get("kind") == "diagram-reuse":
         return reuse_sequence(case, acc, case.get("forms_seed", 0))
     evaluate(case, acc, case.get("forms_seed", 0))
@@ -246,6 +284,8 @@ def floors(acc, tier):
         why.append("too few cases with a component named like the base module")
     if acc.counters["reused_rule_sequences_with_changing_verdict"] < 20:
         why.append(f"only {acc.counters['reused_rule_sequences_with_changing_verdict']} re-used rule objects saw both a conforming and a violating architecture")
+    if acc.counters["diagram_rules_configured_interleaved"] < 50:
+        why.append(f"only {acc.counters['diagram_rules_configured_interleaved']} diagram rules configured while another one was being configured")
     if acc.counters["c07_judged"] < 1000:
         why.append(f"only {acc.counters['c07_judged']} diagram evaluations judged")
     return why
